@@ -511,7 +511,9 @@ def _multimesh_history():
         _bc(s, "Elastic", load)
         s.Solve()
         s.Save_Iter()
-        snaps[k] = dict(state=_state(s), mesh=np.asarray(s.mesh.coord).copy(), sxx=np.asarray(s.Result("Sxx", nodeValues=False)).copy())
+        s.Need_Update()          # the system of the state just saved, assembled afresh on its mesh
+        snaps[k] = dict(state=_state(s), mesh=np.asarray(s.mesh.coord).copy(), sxx=np.asarray(s.Result("Sxx", nodeValues=False)).copy(), mats=_mats(s),
+                        wdef=float(s.Result("Wdef")))
     step(0, 0)
     s.mesh = meshB
     step(1, 1)
@@ -526,6 +528,14 @@ def _multimesh_history():
             return False, f"after Set_Iter({i}) the state differs ({why})"
         if not np.allclose(np.asarray(s.Result("Sxx", nodeValues=False)), snaps[i]["sxx"], rtol=1e-12, atol=1e-14):
             return False, f"Result('Sxx') for iteration {i} differs from the value obtained at save time"
+        # the assembled system belongs to the mesh the iteration was saved on (matrices, and the energy / reactions computed with them)
+        bad, e = _derived_diff(snaps[i]["mats"], _mats(s), tol=1e-9)
+        if bad is not None:
+            return False, f"after Set_Iter({i}) switched the mesh, Get_K_C_M_F() returns a {bad} differing by {e:.3e} from the system assembled on that mesh when the iteration was saved"
+        K = s.Get_K_C_M_F()[0]
+        u = np.asarray(s.displacement)
+        if abs(float(s.Result("Wdef")) - 0.5 * float(u @ (K @ u))) > 1e-9 * abs(snaps[i]["wdef"]) or abs(float(s.Result("Wdef")) - snaps[i]["wdef"]) > 1e-9 * abs(snaps[i]["wdef"]):
+            return False, f"after Set_Iter({i}) Wdef = {float(s.Result('Wdef')):.6e}, 1/2 u'Ku = {0.5 * float(u @ (K @ u)):.6e}, value at save time {snaps[i]['wdef']:.6e}"
     return True, ""
 
 
